@@ -516,8 +516,34 @@ func genDigits(t *rapid.T, label string) string {
 	return s
 }
 
+// oddSigns: what may stand where a sign belongs without being one - doubled signs, something between the sign and
+// the digits, zeros or junk before the sign. None of these is part of a numeral: whatever follows, the text denotes
+// nothing (or, for "-." / "+.", a fraction).
+var oddSigns = []string{"++", "+-", "-+", "--", "+-+", "- ", "+ ", "-x", "+_", "-_", "-.", "+.", "+/", "-:", "-'", "00-", "0-", "0+", "00+", "x", "x-", " -", " +",
+	"1-", "1+", "-0-", "+0+", "-0+", "\u2212", "\uff0b"}
+
 func genSign(t *rapid.T, label string) string {
+	if pick(t, label+"odd?", 20) == 0 {
+		return choose(t, label+"odd", oddSigns) // the last two: U+2212 MINUS SIGN, U+FF0B FULLWIDTH PLUS SIGN
+	}
 	return choose(t, label, []string{"", "", "", "", "", "", "-", "-", "-", "+"})
+}
+
+// nearDigits: characters just below '0' and just above '9' in ASCII (what a hand-rolled digit loop with an off-by-one
+// bound lets through), and a few others, to be put at any position of a digit string.
+var nearDigits = []string{":", ":", ";", "<", "=", "@", "/", "/", ".", "`", "-", "+", " ", "_", "a", "\x00", "٣"}
+
+// nearBaseDigits: the same for the base-16 / base-32 helpers (G/g are digits in base 32 only, W/w in neither).
+var nearBaseDigits = []string{":", "@", "/", "`", "G", "g", "W", "w", "[", "{", "_", " ", "-", "+", "."}
+
+// disturb puts one of chars into s at a drawn position, in place of a character or between two.
+func disturb(t *rapid.T, label, s string, chars []string) string {
+	pos := rapid.IntRange(0, len(s)).Draw(t, label+"pos")
+	ch := choose(t, label+"ch", chars)
+	if pos < len(s) && rapid.Bool().Draw(t, label+"repl") {
+		return s[:pos] + ch + s[pos+1:]
+	}
+	return s[:pos] + ch + s[pos:]
 }
 
 func genBlank(t *rapid.T, label string) string {
@@ -528,7 +554,7 @@ func genBlank(t *rapid.T, label string) string {
 }
 
 var junkTails = []string{"a", "x", "L", "f", ".", ".0", ".5", ".50", "e3", "E2", "e-1", "e+0", "e", "_", "_000", " 1", "/", "//", ",", "\"", "\\", "é", "٣", "０",
-	"\x00", "0x1", "h", "ns", "s", "-", "+", "%", "n", " ", " "}
+	"\x00", "0x1", "h", "ns", "s", "-", "+", "%", "n", ":", ";", "@", "=", " ", " "}
 
 func genJunk(t *rapid.T, label string) string {
 	if !pct(t, label+"?", 30) {
@@ -539,8 +565,16 @@ func genJunk(t *rapid.T, label string) string {
 
 func genIntText(t *rapid.T, label string) string {
 	lead := genBlank(t, label+"lb")
-	return lead + genSign(t, label+"sg") + genDigits(t, label+"dg") + genJunk(t, label+"jk") + genBlank(t, label+"tb")
+	sign := genSign(t, label+"sg")
+	digits := genDigits(t, label+"dg")
+	if pick(t, label+"near?", 16) == 0 {
+		digits = disturb(t, label+"near", digits, nearDigits)
+	}
+	return lead + sign + digits + genJunk(t, label+"jk") + genBlank(t, label+"tb")
 }
+
+// longLists: element counts around a power of two and well above the usual handful.
+var longLists = []int{63, 64, 65, 100, 300}
 
 func genListElem(t *rapid.T, label string) string {
 	switch pick(t, label+"ek", 12) {
@@ -560,7 +594,7 @@ func genListElem(t *rapid.T, label string) string {
 }
 
 func genDurationText(t *rapid.T) string {
-	s := choose(t, "dsign", []string{"", "", "", "-", "+"})
+	s := choose(t, "dsign", []string{"", "", "", "", "", "", "-", "-", "+", "+", "++", "--", "+-", "-+", "- ", "0-"})
 	n := rapid.IntRange(1, 3).Draw(t, "dterms")
 	for i := 0; i < n; i++ {
 		s += choose(t, "dnum", []string{"0", "1", "2", "10", "59", "60", "100", "1.5", "0.5", ".5", "2562047", "9223372036854775807", "9223372036854775808", "16.854775807", "16.854775808", "1000000", ""})
@@ -587,6 +621,9 @@ func genBaseText(t *rapid.T) string {
 		s += rapid.StringOfN(rapid.RuneFrom([]rune("0123456789abcdefABCDEF")), 1, 18, -1).Draw(t, "hexr")
 	default:
 		s += rapid.StringOfN(rapid.RuneFrom([]rune("0123456789abcdefghijklmnopqrstuvV")), 1, 15, -1).Draw(t, "b32r")
+	}
+	if pick(t, "bnear?", 12) == 0 {
+		s = disturb(t, "bnear", s, nearBaseDigits)
 	}
 	return s + genJunk(t, "bjunk")
 }
@@ -638,9 +675,20 @@ func GenToken(t *rapid.T) TokenCase {
 	case kind < 80: // list
 		n := rapid.IntRange(0, 6).Draw(t, "nelem")
 		var es []string
+		if pick(t, "long?", 60) == 0 { // a long list of bytes with at most one other element
+			n = choose(t, "nlong", longLists)
+			for i := 0; i < n; i++ {
+				es = append(es, strconv.Itoa(rapid.IntRange(0, 255).Draw(t, "lb")))
+			}
+			if rapid.Bool().Draw(t, "lodd?") {
+				es[rapid.IntRange(0, n-1).Draw(t, "loddpos")] = genListElem(t, "le")
+			}
+			n = 0
+		}
 		for i := 0; i < n; i++ {
 			es = append(es, genListElem(t, "e"))
 		}
+		n = len(es)
 		content = strings.Join(es, "/")
 		if n > 0 && pick(t, "trail", 15) == 0 {
 			content += "/"
@@ -658,6 +706,9 @@ func GenToken(t *rapid.T) TokenCase {
 		mode = 1
 	case 19:
 		mode = 2
+	}
+	if len(content) > 600 { // keep the token below readToken's size bound
+		mode = 0
 	}
 	c.Token = string(quoteJSON([]byte(content), mode))
 	return c
@@ -783,6 +834,15 @@ func classifyToken(res *vkit.Result, info tokInfo) {
 			res.Class("string-surrounding-blanks")
 		}
 		n := readNumeral(strings.Trim(s, blanks))
+		if ts := strings.Trim(s, blanks); len(ts) >= 3 && strings.IndexByte("+-", ts[0]) >= 0 && strings.IndexByte("+-", ts[1]) >= 0 {
+			res.Class("string-doubled-sign")
+		}
+		if !n.ok && len(s) >= 2 && strings.ContainsAny(s, "0123456789") && strings.ContainsAny(s, ":;<=@`") {
+			res.Class("string-digits-with-an-ascii-neighbour-of-the-digits")
+		}
+		if strings.Count(s, "/") >= 62 {
+			res.Class("list-63+-elements")
+		}
 		switch {
 		case n.ok && n.plain:
 			res.Class("string-integer")
@@ -941,6 +1001,7 @@ type RTCase struct {
 	Dur  int64  `json:"dur"`  // Duration
 	Raw  []byte `json:"raw"`  // Base64Bytes
 	Zone int    `json:"zone"` // location of the time values: 0 local, 1 UTC, 2 fixed +08:00
+	W32  uint32 `json:"w32"`  // a 32-bit pattern handed to Unix2Time / UnixNano2Time Scan as uint32 and as int32
 }
 
 var i64Edges = []int64{math.MinInt64, math.MinInt64 + 1, -1, 0, 1, math.MaxInt64 - 1, math.MaxInt64, math.MaxInt32, math.MinInt32, math.MaxInt32 + 1,
@@ -979,6 +1040,10 @@ func GenRT(t *rapid.T) RTCase {
 	default:
 		c.B = rapid.SliceOfN(byteGen, 2, 40).Draw(t, "b")
 	}
+	if pick(t, "blong?", 40) == 0 {
+		n := choose(t, "blong", longLists)
+		c.B = rapid.SliceOfN(byteGen, n, n).Draw(t, "bl")
+	}
 	switch pick(t, "sk", 4) {
 	case 0:
 		c.Sec = choose(t, "secedge", []int64{0, -1, 1, 1700000000, 1<<31 - 1, 1 << 31, 1 << 32, 253402300799, 253402300800, -62135596800, -62135596801,
@@ -1005,6 +1070,30 @@ func GenRT(t *rapid.T) RTCase {
 			60000000000, 3600000000000, 3599999999999, -3600000000001, 86400000000000})
 	case 1:
 		c.Dur = rapid.Int64Range(-5000000000, 5000000000).Draw(t, "dursmall")
+	case 2: // everyday shapes: h/m/s combinations, often with terms that end in 0, and a few sub-second parts
+		sub := []int64{0, 1, 10, 100, 500, 999}
+		if rapid.Bool().Draw(t, "dursub?") {
+			sub = []int64{0}
+		}
+		h := int64(0)
+		if rapid.Bool().Draw(t, "durh?") {
+			h = rapid.Int64Range(0, 300).Draw(t, "durh")
+		}
+		m, sec := int64(0), int64(0)
+		if pick(t, "durm?", 4) != 0 {
+			m = rapid.Int64Range(0, 59).Draw(t, "durm")
+		}
+		switch pick(t, "durs?", 4) {
+		case 0:
+		case 1:
+			sec = choose(t, "durs10", []int64{10, 20, 30, 40, 50})
+		default:
+			sec = rapid.Int64Range(0, 59).Draw(t, "durs")
+		}
+		c.Dur = (h*3600+m*60+sec)*1000000000 + choose(t, "durms", sub)*1000000 + choose(t, "durus", sub)*1000 + choose(t, "durns", sub)
+		if pick(t, "durneg", 5) == 0 {
+			c.Dur = -c.Dur
+		}
 	default:
 		c.Dur = rapid.Int64().Draw(t, "dur")
 	}
@@ -1013,6 +1102,11 @@ func GenRT(t *rapid.T) RTCase {
 		c.Raw = nil
 	}
 	c.Zone = rapid.IntRange(0, 2).Draw(t, "zone")
+	if rapid.Bool().Draw(t, "w32k") {
+		c.W32 = choose(t, "w32edge", []uint32{0, 1, 1<<31 - 1, 1 << 31, 1<<31 + 1, math.MaxUint32, math.MaxUint32 - 1, 1700000000, 3000000000, 4102444800, 1 << 16, 1 << 24, 0xC0000000})
+	} else {
+		c.W32 = rapid.Uint32().Draw(t, "w32")
+	}
 	return c
 }
 
@@ -1028,15 +1122,30 @@ var codecs = []codec{
 	{"jsonx-fast", jsonx.JSONFastMarshal, jsonx.JSONFastUnmarshal},
 }
 
-// keptOutputs: every text MarshalJSON handed out in the current case, with a copy taken at once. The text belongs to
-// the caller: it must read the same after all later encoder and decoder calls of the case (checked at its end).
+// keptOutputs: every text MarshalJSON / ToJS handed out and every slice-backed value a decoder produced (JsByte lists,
+// Base64Bytes) in the current case, with a copy taken at once. Text and value belong to the caller: they must read the
+// same after all later encoder and decoder calls of the case (checked at its end).
 // Cases run one after the other in a process, so a package variable will do.
 type keptOutput struct {
-	name      string
-	out, copy []byte
+	site, what string
+	out, copy  []byte
 }
 
 var keptOutputs []keptOutput
+
+func keep(site, what string, b []byte) {
+	keptOutputs = append(keptOutputs, keptOutput{site, what, b, append([]byte(nil), b...)})
+}
+
+// keepValue retains a decoded value if it is backed by a slice.
+func keepValue(name, path string, v any) {
+	switch x := v.(type) {
+	case tex.JsByte:
+		keep("decode/"+name+"/retained", "the list "+name+" decoded ("+path+")", x)
+	case tex.Base64Bytes:
+		keep("decode/"+name+"/retained", "the bytes "+name+" decoded ("+path+")", x)
+	}
+}
 
 func checkKept(res *vkit.Result) {
 	defer func() { keptOutputs = keptOutputs[:0] }()
@@ -1045,7 +1154,11 @@ func checkKept(res *vkit.Result) {
 	}
 	for _, k := range keptOutputs {
 		if !bytes.Equal(k.out, k.copy) {
-			res.Failf("encode/"+k.name+"/retained", "the text %s.MarshalJSON returned was %s; after the later calls of the case the same slice reads %s", k.name, show(k.copy), show(k.out))
+			if strings.HasPrefix(k.site, "decode/") {
+				res.Failf(k.site, "%s was %v; after the later calls of the case the same value reads %v", k.what, k.copy, k.out)
+			} else {
+				res.Failf(k.site, "%s was %s; after the later calls of the case the same slice reads %s", k.what, show(k.copy), show(k.out))
+			}
 			return
 		}
 	}
@@ -1063,7 +1176,7 @@ func rtJSON[T any](res *vkit.Result, name string, v T, init func() T, same func(
 		res.Failf("encode/"+name, "%s(%s).MarshalJSON failed: %v", name, render(v), err)
 		return
 	}
-	keptOutputs = append(keptOutputs, keptOutput{name, out, append([]byte(nil), out...)})
+	keep("encode/"+name+"/retained", "the text "+name+".MarshalJSON returned", out)
 	info, ok := readToken(out)
 	if !ok || info.kind != tkString {
 		res.Failf("encode/"+name, "%s(%s).MarshalJSON = %s: not a JSON string token", name, render(v), show(out))
@@ -1074,13 +1187,23 @@ func rtJSON[T any](res *vkit.Result, name string, v T, init func() T, same func(
 		return
 	}
 	w := init()
-	if err := any(&w).(json.Unmarshaler).UnmarshalJSON(append([]byte(nil), out...)); err != nil {
+	in := append([]byte(nil), out...)
+	if err := any(&w).(json.Unmarshaler).UnmarshalJSON(in); err != nil {
 		res.Failf("roundtrip/"+name+"/direct", "%s: UnmarshalJSON(MarshalJSON(%s) = %s) failed: %v", name, render(v), show(out), err)
 		return
 	} else if !same(v, w) {
 		res.Failf("roundtrip/"+name+"/direct", "%s: UnmarshalJSON(MarshalJSON(%s) = %s) = %s", name, render(v), show(out), render(w))
 		return
 	}
+	// json.Unmarshaler: "UnmarshalJSON must copy the JSON data if it wishes to retain the data after returning"
+	for i := range in {
+		in[i] = '8'
+	}
+	if !same(v, w) {
+		res.Failf("roundtrip/"+name+"/input-reused", "%s: the value decoded from %s reads %s once the caller has overwritten its input buffer", name, show(out), render(w))
+		return
+	}
+	keepValue(name, "UnmarshalJSON", w)
 	for _, enc := range codecs {
 		doc, err := enc.marshal(holder[T]{V: v})
 		if err != nil {
@@ -1101,6 +1224,67 @@ func rtJSON[T any](res *vkit.Result, name string, v T, init func() T, same func(
 				res.Failf("roundtrip/"+name+"/"+path, "%s: {v: %s} -> %s -> {v: %s}", name, render(v), show(doc), render(h.V))
 				return
 			}
+			keepValue(name, path, h.V)
+		}
+	}
+}
+
+// otherBytes: a list one element longer than b that differs from b at every position.
+func otherBytes(b []byte) tex.JsByte {
+	o := make(tex.JsByte, len(b)+1)
+	for i, x := range b {
+		o[i] = ^x
+	}
+	o[len(b)] = 99
+	return o
+}
+
+// pairDoc: two lists (and two numbers) as members of one document.
+type pairDoc struct {
+	A tex.JsByte   `json:"a"`
+	N tex.JsInt64  `json:"n"`
+	B tex.JsByte   `json:"b"`
+	M tex.JsUInt64 `json:"m"`
+}
+
+// rtPair: the list of the case and a different one decoded into two fields of one struct; both have to come back,
+// neither at the other's expense. Quick tier: one of the 9 library pairings, picked by the case's data; thorough: all 9.
+func rtPair(res *vkit.Result, c RTCase) {
+	if res.Fail != nil {
+		return
+	}
+	orig := pairDoc{A: tex.JsByte(c.B), N: tex.JsInt64(c.I), B: otherBytes(c.B), M: tex.JsUInt64(c.U)}
+	only := int((uint64(c.W32) + uint64(len(c.B))) % uint64(len(codecs)*len(codecs)))
+	all := vkit.Tier() == "thorough"
+	for i, enc := range codecs {
+		if !all && only/len(codecs) != i {
+			continue
+		}
+		doc, err := enc.marshal(orig)
+		if err != nil {
+			res.Failf("roundtrip/pair/"+enc.name, "marshalling {a: %v, n: %d, b: %v, m: %d} failed: %v", c.B, c.I, []byte(orig.B), c.U, err)
+			return
+		}
+		for j, dec := range codecs {
+			if !all && only%len(codecs) != j {
+				continue
+			}
+			path := enc.name
+			if j != i {
+				path += ">" + dec.name
+			}
+			got := pairDoc{A: tex.JsByte{7, 7}, N: -7777, B: tex.JsByte{7, 7}, M: 7777}
+			if err := dec.unmarshal(doc, &got); err != nil {
+				res.Failf("roundtrip/pair/"+path, "%s of %s failed: %v", dec.name, show(doc), err)
+				return
+			}
+			if !bytes.Equal(got.A, orig.A) || !bytes.Equal(got.B, orig.B) || got.N != orig.N || got.M != orig.M {
+				res.Failf("roundtrip/pair/"+path, "{a: %v, n: %d, b: %v, m: %d} -> %s -> {a: %v, n: %d, b: %v, m: %d}", c.B, c.I, []byte(orig.B), c.U,
+					show(doc), []byte(got.A), int64(got.N), []byte(got.B), uint64(got.M))
+				return
+			}
+			keepValue("JsByte", "member a, "+path, got.A)
+			keepValue("JsByte", "member b, "+path, got.B)
 		}
 	}
 }
@@ -1193,14 +1377,18 @@ func ExecRT(c RTCase) *vkit.Result {
 	if res.Fail == nil {
 		b := tex.JsByte(c.B)
 		s := b.ToString()
-		if string(b.ToJS()) != s {
-			res.Failf("encode/JsByte/ToJS", "JsByte(%v): ToJS %q differs from ToString %q", c.B, b.ToJS(), s)
+		js := b.ToJS()
+		keep("encode/JsByte/ToJS/retained", "the text JsByte.ToJS returned", js)
+		if string(js) != s {
+			res.Failf("encode/JsByte/ToJS", "JsByte(%v): ToJS %q differs from ToString %q", c.B, js, s)
 		}
 		back := tex.JsByte{7, 7}
 		if err := back.FromString(s); err != nil || !bytes.Equal(back, c.B) {
 			res.Failf("roundtrip/JsByte/FromString", "JsByte(%v).ToString() = %q; FromString gives %v, %v", c.B, s, []byte(back), err)
 		}
+		keepValue("JsByte", "FromString", back)
 	}
+	rtPair(res, c)
 	if res.Fail == nil {
 		var d tex.Duration = 7777
 		s := time.Duration(c.Dur).String()
@@ -1250,20 +1438,28 @@ func ExecRT(c RTCase) *vkit.Result {
 	// the other integer kinds Scan accepts, where they can hold the value
 	if res.Fail == nil {
 		small := c.Nano % (1 << 31)
-		var ins []any
-		ins = append(ins, int(c.Nano), int32(small))
+		type scanIn struct {
+			in   any
+			want int64
+		}
+		ins := []scanIn{{int(c.Nano), c.Nano}, {int32(small), small}}
 		if c.Nano >= 0 {
-			ins = append(ins, uint64(c.Nano), uint(c.Nano))
+			ins = append(ins, scanIn{uint64(c.Nano), c.Nano}, scanIn{uint(c.Nano), c.Nano})
 		}
 		if small >= 0 {
-			ins = append(ins, uint32(small))
+			ins = append(ins, scanIn{uint32(small), small})
 		}
-		for _, in := range ins {
-			want := c.Nano
-			switch in.(type) {
-			case int32, uint32:
-				want = small
-			}
+		// the whole range of the 32-bit kinds, and the 64-bit kinds once more from the other fields
+		ins = append(ins, scanIn{c.W32, int64(c.W32)}, scanIn{int32(c.W32), int64(int32(c.W32))},
+			scanIn{c.I, c.I}, scanIn{int(c.I), c.I}, scanIn{int(c.Sec), c.Sec})
+		if c.I >= 0 {
+			ins = append(ins, scanIn{uint64(c.I), c.I}, scanIn{uint(c.I), c.I})
+		}
+		if c.U <= math.MaxInt64 {
+			ins = append(ins, scanIn{c.U, int64(c.U)}, scanIn{uint(c.U), int64(c.U)})
+		}
+		for _, si := range ins {
+			in, want := si.in, si.want
 			n2 := tex.UnixNano2Time(sentinelTime)
 			u2 := tex.Unix2Time(sentinelTime)
 			e1, e2 := n2.Scan(in), u2.Scan(in)
@@ -1285,6 +1481,15 @@ func ExecRT(c RTCase) *vkit.Result {
 				if err := back.Scan(in); err != nil || !bytes.Equal(back, c.Raw) {
 					res.Failf("sql/Base64Bytes", "Base64Bytes(%v): Scan(%T %q) = %v, %v", c.Raw, in, s, []byte(back), err)
 				}
+				if src, ok := in.([]byte); ok { // database/sql: the driver owns a []byte source, a Scanner that keeps it has to copy
+					for i := range src {
+						src[i] = 'A'
+					}
+					if !bytes.Equal(back, c.Raw) && res.Fail == nil {
+						res.Failf("sql/Base64Bytes/input-reused", "Base64Bytes(%v): the value scanned from []byte %q reads %v once the source buffer has been overwritten", c.Raw, s, []byte(back))
+					}
+				}
+				keepValue("Base64Bytes", fmt.Sprintf("Scan of a %T", in), back)
 			}
 		}
 	}
@@ -1306,6 +1511,24 @@ func ExecRT(c RTCase) *vkit.Result {
 			tex.JsUnixTime(sentinelTime), tex.JsNanoTime(sentinelTime)}
 		for _, o := range other {
 			_, _ = o.MarshalJSON()
+		}
+		ob := otherBytes(c.B)
+		_ = ob.ToJS()
+		_ = ob.ToString()
+		otok, _ := ob.MarshalJSON()
+		var d1, d2 tex.JsByte
+		_ = d1.UnmarshalJSON(append([]byte(nil), otok...))
+		_ = d2.FromString(ob.ToString())
+		for _, dec := range codecs {
+			var h holder[tex.JsByte]
+			_ = dec.unmarshal(embed(otok, false), &h)
+		}
+		oraw := tex.Base64Bytes(otherBytes(c.Raw))
+		if v, err := oraw.Value(); err == nil {
+			if s, ok := v.(string); ok {
+				var r1, r2 tex.Base64Bytes
+				_, _ = r1.Scan(s), r2.Scan([]byte(s))
+			}
 		}
 	}
 	checkKept(res)
@@ -1344,6 +1567,15 @@ func classifyRT(res *vkit.Result, c RTCase) {
 	default:
 		res.Class("bytes-n-elements")
 	}
+	if len(c.B) >= 63 {
+		res.Class("bytes-63+-elements")
+	}
+	if c.W32 >= 1<<31 {
+		res.Class("32-bit-pattern-with-top-bit (uint32 >= 2^31, int32 < 0)")
+	}
+	if ds := time.Duration(c.Dur).String(); len(ds) >= 3 && strings.HasSuffix(ds, "0s") && ds[len(ds)-3] >= '0' && ds[len(ds)-3] <= '9' {
+		res.Class("duration-text-ends-in-a-multiple-of-10s")
+	}
 	switch {
 	case c.Dur == 0:
 		res.Class("duration-zero")
@@ -1374,14 +1606,14 @@ func classifyRT(res *vkit.Result, c RTCase) {
 
 var PartRT = &vkit.Part[RTCase]{
 	Property: Property, Name: "roundtrip",
-	Rule:  "rapid: one value for every type per case - int64/uint64 from edges (min, max, +-1, 2^31, 2^32, 2^53+1, 2^63, the repo tests' literals), small and uniform; byte lists nil / empty / 1 / 2..40 elements biased to 0, 255, '/' and digits; instants as (seconds over all of int64 incl. year 1/9999/min/max, nanoseconds 0..999999999) and as int64 nanoseconds, in Local/UTC/+08:00; durations 0, +-1ns, min, max, unit boundaries, uniform; raw bytes of every length mod 3. Each JSON type goes through MarshalJSON (whose text must denote the value under the math/big reading) and UnmarshalJSON directly and as a struct member through all 9 pairings of encoding/json, jsonx std and jsonx fast; JsByte To/FromString; Duration TOML; SQL Value (must be a driver.Value) then Scan for UnixStamp, SQLTime2Unix, UnixNano2Time, Unix2Time (plus every integer kind Scan accepts), Base64Bytes (string and []byte); I64Hex/U64Hex/I64HexV2/U64HexV2 and back. Non-trivial: some field is not the zero value; distinct = distinct case JSON",
+	Rule:  "rapid: one value for every type per case - int64/uint64 from edges (min, max, +-1, 2^31, 2^32, 2^53+1, 2^63, the repo tests' literals), small and uniform; byte lists nil / empty / 1 / 2..40 elements biased to 0, 255, '/' and digits, 2.5% with 63, 64, 65, 100 or 300 elements; instants as (seconds over all of int64 incl. year 1/9999/min/max, nanoseconds 0..999999999) and as int64 nanoseconds, in Local/UTC/+08:00; durations 0, +-1ns, min, max, unit boundaries, uniform, and everyday shapes (h 0..300, m and s 0..59 or a multiple of 10 s, ms/us/ns parts from 0, 1, 10, 100, 500, 999, i.e. texts like 10s, 1m30s, 2h45m10s, 100ms, 1.5s); a 32-bit pattern from edges (2^31-1, 2^31, 2^32-1 ...) or uniform; raw bytes of every length mod 3. Each JSON type goes through MarshalJSON (whose text must denote the value under the math/big reading) and UnmarshalJSON directly and as a struct member through all 9 pairings of encoding/json, jsonx std and jsonx fast; JsByte To/FromString; Duration TOML; SQL Value (must be a driver.Value) then Scan for UnixStamp, SQLTime2Unix, UnixNano2Time, Unix2Time (plus every integer kind Scan accepts over its whole range: int32 and uint32 from the 32-bit pattern, int/int64/uint/uint64 from the 64-bit fields), Base64Bytes (string and []byte); the byte list and a second, different one as two members of one document through the libraries; I64Hex/U64Hex/I64HexV2/U64HexV2 and back. Every text MarshalJSON / ToJS returned and every decoded list / byte string is kept and read again at the end of the case, after other values went through all encoders and decoders; a decoded value also has to survive the caller overwriting the input buffer. Non-trivial: some field is not the zero value; distinct = distinct case JSON",
 	Quick: 36000, Thorough: 60000,
 	Gen: GenRT, Exec: ExecRT,
 }
 
 var PartToken = &vkit.Part[TokenCase]{
 	Property: Property, Name: "token",
-	Rule:  "rapid: one well-formed JSON scalar token per case from a grammar - 24% bare numbers -?int[.frac][e[+-]exp] (int from range boundaries of byte/int32/int64/uint64 +-1, 2^k+-1, 1..25 random digits, small), 3% null/true/false, 3% encoder output, the rest strings whose content is [blank][sign]digits[junk][blank] (leading zeros, 20+ digits), a '/'-list of such elements (with 256, -1, empty and odd elements), empty/blank, duration literals, hex/base-32 digit strings; 10% of strings written with \\u00XX or \\/ escapes. The token is given to UnmarshalJSON of JsInt64, JsUInt64, UnixStamp, JsUnixTime, JsNanoTime, JsByte, Duration directly and embedded in {\"v\":token} (25% padded with blanks and neighbours) through encoding/json, jsonx std and jsonx fast, onto targets preset to a sentinel; its text also to JsByte.FromString, Duration.UnmarshalTOML, HexI64/HexU64/HexI64V2/HexU64V2. Oracle: a math/big reading of the text written from the statement: a nil error obliges the decoder to exactly the denoted in-range value (empty content: zero allowed; null: sentinel unchanged allowed; surrounding blanks may be rejected or ignored); junk, fractions, out-of-range, non-byte elements, true/false require an error. Non-trivial: the token is not something the encoders under test emit (canonical decimal / byte list / Duration.String in an unescaped string); distinct = distinct case JSON",
+	Rule:  "rapid: one well-formed JSON scalar token per case from a grammar - 24% bare numbers -?int[.frac][e[+-]exp] (int from range boundaries of byte/int32/int64/uint64 +-1, 2^k+-1, 1..25 random digits, small), 3% null/true/false, 3% encoder output, the rest strings whose content is [blank][sign]digits[junk][blank] (leading zeros, 20+ digits; 5% malformed signs: doubled, separated from the digits, preceded by zeros or junk; 6% one character next to the digits in ASCII - : ; < = @ / . ` - or another foreign one put at any position), a '/'-list of such elements (with 256, -1, empty and odd elements; now and then 63, 64, 65, 100 or 300 bytes with at most one odd element), empty/blank, duration literals, hex/base-32 digit strings; 10% of strings written with \\u00XX or \\/ escapes. The token is given to UnmarshalJSON of JsInt64, JsUInt64, UnixStamp, JsUnixTime, JsNanoTime, JsByte, Duration directly and embedded in {\"v\":token} (25% padded with blanks and neighbours) through encoding/json, jsonx std and jsonx fast, onto targets preset to a sentinel; its text also to JsByte.FromString, Duration.UnmarshalTOML, HexI64/HexU64/HexI64V2/HexU64V2. Oracle: a math/big reading of the text written from the statement: a nil error obliges the decoder to exactly the denoted in-range value (empty content: zero allowed; null: sentinel unchanged allowed; surrounding blanks may be rejected or ignored); junk, fractions, out-of-range, non-byte elements, true/false require an error. Non-trivial: the token is not something the encoders under test emit (canonical decimal / byte list / Duration.String in an unescaped string); distinct = distinct case JSON",
 	Quick: 90000, Thorough: 200000,
 	Gen: GenToken, Exec: ExecToken,
 }
